@@ -451,6 +451,23 @@ theorem val_ge_of_lead' (d : Array UInt8) (h1 : 1 ≤ dig d 0) : ∀ n, 1 ≤ n 
         rw [← Nat.pow_succ]; congr 1; omega
       rw [hp]; omega
 
+/-- no trailing zero digit -/
+def Trimmed (a : Decimal) : Prop := a.nd = 0 ∨ a.d[a.nd - 1]! ≠ 48
+
+theorem trimLoop_trimmed (d : Array UInt8) : ∀ nd, trimLoop d nd = 0 ∨ d[trimLoop d nd - 1]! ≠ 48 := by
+  intro nd
+  induction nd with
+  | zero => left; rfl
+  | succ n ih =>
+    simp only [trimLoop]
+    by_cases h : (d[n]! == 48) = true
+    · rw [if_pos h]; exact ih
+    · rw [if_neg h]
+      right
+      simpa using h
+
+theorem trim_trimmed (a : Decimal) : Trimmed a.trim := trimLoop_trimmed a.d a.nd
+
 /-- normal form: a non-empty digit string starts with a non-zero digit -/
 def NZ (a : Decimal) : Prop := 0 < a.nd → 1 ≤ dig a.d 0
 
@@ -518,7 +535,7 @@ theorem aval_zero_of_val (a : Decimal) (h : val a.d a.nd = 0) : aval a = 0 := by
 /-- **`rightShift(a, k)`**: well-formed again; when the `trunc` flag is off afterwards it was off before and the
     value is exactly `a / 2^k` -/
 theorem rightShift_spec (a : Decimal) (h : WF a) (k : Nat) (hk1 : 1 ≤ k) (hk : k ≤ 60) :
-    WF (rightShift a k) ∧ NZ (rightShift a k) ∧ (NZ a → 1 ≤ a.nd → 1 ≤ (rightShift a k).nd) ∧ (rightShift a k).neg = a.neg ∧
+    WF (rightShift a k) ∧ NZ (rightShift a k) ∧ Trimmed (rightShift a k) ∧ (NZ a → 1 ≤ a.nd → 1 ≤ (rightShift a k).nd) ∧ (rightShift a k).neg = a.neg ∧
       ((rightShift a k).trunc = false → a.trunc = false ∧ aval (rightShift a k) = aval a / 2 ^ k) := by
   have hp : (0 : ℕ) < 2 ^ k := by positivity
   simp only [rightShift]
@@ -527,7 +544,7 @@ theorem rightShift_spec (a : Decimal) (h : WF a) (k : Nat) (hk1 : 1 ≤ k) (hk :
   | none =>
     rw [hrp] at hpick
     simp only [] at hpick ⊢
-    refine ⟨⟨h.size, by simp, fun i hi => absurd hi (by simp)⟩, fun hh => absurd hh (by simp), ?_, by first | rfl | trivial, fun htr => ⟨htr, ?_⟩⟩
+    refine ⟨⟨h.size, by simp, fun i hi => absurd hi (by simp)⟩, fun hh => absurd hh (by simp), .inl rfl, ?_, by first | rfl | trivial, fun htr => ⟨htr, ?_⟩⟩
     · intro hnz hnd1
       exfalso
       have := val_ge_of_lead' a.d (hnz hnd1) a.nd hnd1
@@ -595,7 +612,7 @@ theorem rightShift_spec (a : Decimal) (h : WF a) (k : Nat) (hk1 : 1 ≤ k) (hk :
           have := hj2 (by omega)
           omega)
       rw [hre] at this; exact this
-    refine ⟨t1, trim_nz _ hnz2, fun _ _ => trim_pos _ hnz2 hw2pos, t3, fun htr => ?_⟩
+    refine ⟨t1, trim_nz _ hnz2, trim_trimmed _, fun _ _ => trim_pos _ hnz2 hw2pos, t3, fun htr => ?_⟩
     rw [t4] at htr
     obtain ⟨f1, z', j', f2, f3⟩ := e4 htr
     refine ⟨f1, ?_⟩
